@@ -473,7 +473,10 @@ def whileCode (cond body : CM Unit) : CM Unit := do
   withSub 0 cond
   pushSub 1
   encodeIfThen op.gotoIfFalse do
+    -- (repaired) variables declared in the body live for one iteration, as in `Repeat`/`ForEach`
+    scopeBegin
     body
+    scopeEnd
     pushInstr op.goto
     emitU32 blockBegin
   popSub
